@@ -463,11 +463,11 @@ func mangle(req *http.Request, target, val string) bool {
 		i := 1 + n%(len(segs)-1)
 		segs[i] = val
 		raw := strings.Join(segs, "/")
-		p, err := url.PathUnescape(raw)
-		if err != nil {
+		if _, err := url.PathUnescape(raw); err != nil {
 			return false // net/http's server refuses such a request target itself; ogen never sees it
 		}
-		req.URL.Path, req.URL.RawPath = p, raw
+		// sent as written (absolute-form request target), not as net/url would re-encode it
+		req.URL.Opaque = "//" + req.URL.Host + raw
 		return true
 	case "header":
 		var names []string
